@@ -182,8 +182,8 @@ func totalityOracle(c C05Case) (accepted bool, typ uint16, err error) {
 
 func propC05(c C05Case) error {
 	hC05.Begin("TestC05", c)
-	defer hC05.End()
 	accepted, typ, err := totalityOracle(c)
+	hC05.End() // not deferred: after a panic or a fatal error the crash file must keep the case
 	if err != nil {
 		return fmt.Errorf("%s: %v", c.Describe(), err)
 	}
@@ -210,14 +210,14 @@ func TestC05RepoLogs(t *testing.T) {
 	for _, l := range repoLogLines() {
 		c := C05Case{AsLine: true, Input: []byte(l)}
 		hC05.Eval()
-		if err := propC05(c); err != nil {
+		if err := hx.Guard(propC05, c); err != nil {
 			hC05.Fail(t, "TestC05", c, "%v", err)
 		}
 		if i := strings.Index(l, "msg="); i >= 0 {
 			for _, typ := range enrichTypes {
 				c := C05Case{Typ: typ, Input: []byte(l[i+4:])}
 				hC05.Eval()
-				if err := propC05(c); err != nil {
+				if err := hx.Guard(propC05, c); err != nil {
 					hC05.Fail(t, "TestC05", c, "%v", err)
 				}
 			}
